@@ -16,7 +16,7 @@ import replaygen
 KERNEL_WITNESS = [
     (r"^\(\*observerImpl\)|^\(\*subscriberImpl\)|^newSubscriberImpl|^NewSubscriberWithConcurrencyMode|^\(\*observableImpl\)", "TestWitnessGate", "gate"),
     (r"^\(\*subscriptionImpl\)|^execFinalizer|^NewSubscription", "TestWitnessSubscription", "subscription"),
-    (r"SubjectImpl\)", "TestWitnessSubjects", "subject"),
+    (r"SubjectImpl\)", "TestWitnessSubjects(Live)?", "subject"),
     (r"^ShareWithConfig|^\(\*connectableObservableImpl\)", "TestWitnessShare", "share"),
 ]
 
@@ -246,7 +246,8 @@ def bounded_fallback(pid, repo, root, seed, lines, outdir=None):
     """When contracts stopped binding (UNDECIDED), run the bounded witnesses of the property as a search for a
     concrete failing input. Returns True when one was found."""
     tests = {
-        "C01": "TestWitnessGate|TestWitnessSubjects", "C02": "TestWitnessGate", "C03": "TestWitnessSubscription|TestWitnessGate",
+        "C01": "TestWitnessGate|TestWitnessSubjects", "C02": "TestWitnessGate|TestWitnessSubjectsLive", "C03": "TestWitnessSubscription|TestWitnessGate",
+        "C05": "TestWitnessSubjectsLive", "C08": "TestWitnessSubjectsLive", "C13": "TestWitnessSubjectsLive", "C20": "TestWitnessSubjectsLive",
         "C06": "TestWitnessGate|TestWitnessSubscription", "C07": "TestWitnessGate|TestWitnessSubscription",
         "C10": "TestWitnessSubjects", "C11": "TestWitnessShare",
     }.get(pid)
